@@ -303,26 +303,29 @@ fn get_artifact_path_and_content_impl<TCompilationProfile: CompilationProfile>(
                             };
 
                             let mut traversal_state = traversal_state.clone();
-                            traversal_state.refetch_paths = traversal_state
-                                .refetch_paths
-                                .into_iter()
-                                .map(|(mut key, value)| {
-                                    key.0.linked_fields.insert(
-                                        0,
-                                        NormalizationKey::InlineFragment(
-                                            type_to_refine_to.name.item,
-                                        ),
-                                    );
-                                    key.0.linked_fields.insert(
-                                        0,
-                                        NormalizationKey::ServerField(NameAndArguments {
-                                            name: (*NODE_FIELD_NAME),
-                                            arguments: vec![id_arg.clone()],
-                                        }),
-                                    );
-                                    (key, value)
-                                })
-                                .collect();
+                            // A field that is refetched from the root is not wrapped in node(id: $id)
+                            if let RefetchStrategy::UseRefetchField(_) = refetch_strategy {
+                                traversal_state.refetch_paths = traversal_state
+                                    .refetch_paths
+                                    .into_iter()
+                                    .map(|(mut key, value)| {
+                                        key.0.linked_fields.insert(
+                                            0,
+                                            NormalizationKey::InlineFragment(
+                                                type_to_refine_to.name.item,
+                                            ),
+                                        );
+                                        key.0.linked_fields.insert(
+                                            0,
+                                            NormalizationKey::ServerField(NameAndArguments {
+                                                name: (*NODE_FIELD_NAME),
+                                                arguments: vec![id_arg.clone()],
+                                            }),
+                                        );
+                                        (key, value)
+                                    })
+                                    .collect();
+                            }
 
                             path_and_contents.extend(
                                 generate_entrypoint_artifacts_with_client_scalar_selectable_traversal_result(
